@@ -104,7 +104,7 @@ func (c *Cmd) Lattice(f *Field, thorough bool) []Choice {
 			add(fmt.Sprintf("%#x", x), func(v reflect.Value) { setBits(v, x) })
 		}
 	case KFileTime:
-		for _, p := range [][2]uint32{{0x01020304, 0x05060708}, {0xFEFDFCFB, 0xFAF9F8F7}, {0xFFFFFFFF, 0}, {0, 0x80000000}, {0xD53E8000, 0x019DB1DE}} {
+		for _, p := range [][2]uint32{{0x01020304, 0x05060708}, {0xFEFDFCFB, 0xFAF9F8F7}, {0xFFFFFFFF, 0}, {0, 0x80000000}, {0xD53E8000, 0x019DB1DE}, {0xFFFFFFFF, 0xFFFFFFFF}, {0xFFFFFFFF, 0x7FFFFFFF}} { // the last two: the "not specified" and the "never" sentinels, values like any other to a codec
 			add(fmt.Sprintf("ft(%#x,%#x)", p[0], p[1]), setFiletime(p[0], p[1]))
 		}
 	case KLargeInt:
